@@ -93,6 +93,28 @@ CLAIMED.update({
         technique='symbolic execution of rustc MIR with z3 from fabricated VM states, native replay through hooks', design='4/C07'),
 })
 
+CLAIMED.update({
+    'C04': dict(
+        text='Run-time half only, as a differential step lemma: the real run_one arms CALL / TCALL / ENTER / VARARG / RET executed from MIR on fabricated '
+             'programs; for 70 shapes (caller/callee argument counts 0..2 (thorough 0..3), fixed / variadic callee with every required count and every '
+             'number of passed arguments, lambda / closure callee, chains of two tail calls) a chain main -CALL-> c0 -TCALL-> .. -> ck reaches the body of ck '
+             'with the same sp, bp, frame contents and rest list as the direct call main -CALL-> ck, and both return to main with the same sp/bp/ep/acc. '
+             'Argument values are solver variables. n tail calls = stack of one call follows by the induction argument in DESIGN.md.',
+        note='The compile-time half (every R7RS tail context incl. the prelude derived forms is compiled to TCALL) is NOT covered: a compiler or prelude '
+             'change that drops a tail call is not detected (seeded change C04B is missed for that reason). The frame arithmetic does not branch on argument '
+             'values, so the solver decides only the value-equality obligations; shapes are enumerated. apply / call/cc / eval in tail position are outside.',
+        technique='symbolic execution of rustc MIR (differential step lemma on fabricated frames, symbolic argument values), native replay by single-stepping through hooks', design='4/C04'),
+    'C05': dict(
+        text='Capture / restore step lemmas on the real call_cc, to_continuation, restore_continuation and the continuation arms of CALL/TCALL: (1) the captured '
+             'object equals the machine state with receiver and argc popped and ip after the call; (2) from any later state (stack cells of symbolic kind and '
+             'payload, symbolic bp/ep/ip) CALL/TCALL k with one argument restores stack[0..=sp], sp, bp, ep, ip and puts the value in acc, heap untouched; '
+             '(3) zero arguments is an Err; (4) a stored continuation with a 300-slot saved stack is invoked from a later evaluation after Stack::clear on a '
+             'grown stack without panicking.',
+        note='The end-to-end meaning for whole programs is outside; marking of continuations by the collector is C03. Saved-stack lengths are enumerated '
+             '(1, 3, 4, 300). Only the clear-then-restore scenario has a native replay; other counterexamples would be reported as inconclusive.',
+        technique='symbolic execution of rustc MIR with z3 from fabricated VM states (step lemmas), native replay through hooks', design='4/C05'),
+})
+
 NOT_APPLICABLE = {
     'C01': 'whole-pipeline property over arbitrary programs (reader -> syntax-rules prelude -> compiler -> VM): no engine here can push a symbolic program through it; enumerating program shapes would be testing, not solver work (DESIGN.md section 5)',
     'C02': 'scoping is a relation between compile-time environment maps and run-time environment chains across nested activations of whole programs; the only solver-sized kernel restates the code (DESIGN.md section 5)',
